@@ -79,7 +79,7 @@ def same_obs(x, y, keys=("dims", "shape", "values")):
 
 class C14(Prop):
     id = "C14"
-    theorems = ["labelToInt_intCast", "ixToRaw_rawToIx", "dsTake_perdim_commutes", "fullslice_both_modes"]
+    theorems = ["labelToInt_intCast", "ixToRaw_rawToIx", "dsTake_perdim_commutes", "fullslice_both_modes", "DSV.setItem_shared", "DSV.takeAxisPosDs_spec", "DSV.takeAxisPosDs_ok", "DSV.sortAxisDs_spec", "DSV.reindexAxisDs_spec", "DSV.takeDs_spec", "DSV.takeDs_sameData", "DSV.firstDraft_counterexample"]
     rule = ("Datasets of 1-4 variables whose dimension sets overlap partially (some variables lack the operated dimension, "
             "some are 0-d), int/float/str labels in any order; take / .ix / .loc / .sel / .isel with scalar, list, mask and slice "
             "indices, reductions (mean sum var std median), take_axis, sort_axis, reindex_axis (with missing labels), "
